@@ -296,7 +296,8 @@ fn start_provider(plans: Plans) -> Provider {
 pub enum Op {
     Write { path: String, content: String },
     Patch { files: Vec<String> },
-    Bash { mark: String, sleep_ms: u64 },
+    /// `shell` = the registered alias of `bash` (same arguments)
+    Bash { mark: String, sleep_ms: u64, shell: bool },
     Read { path: String },
     Ls,
     Grep,
@@ -313,6 +314,7 @@ impl Op {
         match self {
             Op::Write { .. } => "write",
             Op::Patch { .. } => "apply_patch",
+            Op::Bash { shell: true, .. } => "shell",
             Op::Bash { .. } => "bash",
             Op::Read { .. } => "read",
             Op::Ls => "ls",
@@ -331,7 +333,7 @@ impl Op {
                 p.push_str("*** End Patch");
                 json!({ "patch": p })
             }
-            Op::Bash { mark, sleep_ms } => {
+            Op::Bash { mark, sleep_ms, .. } => {
                 json!({"command": format!("'{}' mark '{}' {} {}", env.exe, env.marks, mark, sleep_ms)})
             }
             Op::Read { path } => json!({ "path": path }),
@@ -365,7 +367,7 @@ fn gen_op(rng: &mut Rng, tag: &str, n: &mut u32, read_bias: u64) -> Op {
                 }
                 Op::Patch { files }
             }
-            _ => Op::Bash { mark: format!("sb-{tag}-{i}"), sleep_ms: 3 + rng.below(15) },
+            _ => Op::Bash { mark: format!("sb-{tag}-{i}"), sleep_ms: 3 + rng.below(15), shell: rng.chance(1, 3) },
         }
     }
 }
@@ -1076,7 +1078,7 @@ fn judge(
                                 w(json!({"got": x.paths, "want": want})),
                             );
                         }
-                    } else if t.name == "bash" {
+                    } else if t.name == "bash" || t.name == "shell" {
                         r.count(if x.paths.is_none() { "bash_affected_paths_null" } else { "bash_affected_paths_listed" }, 1);
                     }
                 }
